@@ -796,6 +796,47 @@ func c5Increase(c *Ctx) {
 	}
 }
 
+// ceWriteNilSafe: explored with a nil receiver, every path of CheckedEntry.Write returns without a call, a store or a
+// read through the receiver.
+func ceWriteNilSafe(c *Ctx) bool {
+	if c.memoCEWrite != 0 {
+		return c.memoCEWrite == 1
+	}
+	c.memoCEWrite = 2
+	w := c.Method(CorePath, "CheckedEntry", "Write")
+	if w == nil || len(w.Params) == 0 {
+		return false
+	}
+	seqs, trunc := ConcPaths(w, ConcCfg{
+		Init: func(st *ConcState) { st.SetNil(w.Params[0], true) },
+		Event: func(in ssa.Instruction, st *ConcState) string {
+			switch x := in.(type) {
+			case ssa.CallInstruction:
+				return "call"
+			case *ssa.Store:
+				return "store"
+			case *ssa.FieldAddr:
+				if Root(x.X) == ssa.Value(w.Params[0]) {
+					return "deref"
+				}
+			case *ssa.Return:
+				return "ret"
+			}
+			return ""
+		},
+	})
+	ok := !trunc && len(seqs) > 0
+	for _, sq := range seqs {
+		if sq != "ret" {
+			ok = false
+		}
+	}
+	if ok {
+		c.memoCEWrite = 1
+	}
+	return ok
+}
+
 func c5WriteGuard(c *Ctx) {
 	c.EachRootFunc(func(fn *ssa.Function) {
 		if fn.Pkg == nil || fn.Pkg.Pkg.Path() == CorePath {
@@ -808,6 +849,11 @@ func c5WriteGuard(c *Ctx) {
 			recv := Args(cl)[0]
 			want := Desc(recv) + " != nil"
 			ok := HasAtom(Guards(cl), func(s string) bool { return s == want })
+			if !ok && ceWriteNilSafe(c) {
+				// no test at the call site: Write makes it itself, before anything else
+				c.OK("R5.5", fn.String(), "write-under-nonnil", cl.Pos(), "ce.Write is called on whatever the check returned; CheckedEntry.Write returns at once, without touching anything, when its receiver is nil (decided by exploring Write with a nil receiver)")
+				continue
+			}
 			c.Check(ok, "R5.5", fn.String(), "write-under-nonnil", cl.Pos(), "ce.Write (and the evaluation of its field arguments in the same block) happens only under %s (guards %v)", want, AtomStrings(Guards(cl)))
 		}
 	})
